@@ -204,6 +204,9 @@ def handle_downlink_macs(c, res):
         res.require(used, 'C08:handle_downlink_macs:LinkADRReq:rfu-verdict-discarded',
                     'the Option returned by channel_mask_update (None = reserved ChMaskCntl) is discarded, so reserved values are acknowledged', short_site(bf, bb),
                     'NO-DISCARD(channel_mask_update)', instance='channel_mask_update verdict is used')
+    # (f') the verdict accumulates over the whole LinkADRReq block: the flag tested for the channel-mask ack is
+    # cleared on a reserved ChMaskCntl and only re-armed before the loop and after the block's answers were queued
+    accumulate_rule(c, res, bf, is_cmd_discr, var)
     # (c) one answer per handled request
     for an in ('DevStatusReq', 'DlChannelReq', 'NewChannelReq', 'RXParamSetupReq', 'RXTimingSetupReq', 'LinkADRReq'):
         adds = names[an]['adds']
@@ -239,6 +242,62 @@ def handle_downlink_macs(c, res):
         res.require(okc, 'C08:handle_downlink_macs:LinkADRReq:answer-multiplicity', 'LinkADRAns copies are not counted per request', short_site(bf, la),
                     'SHAPE(for _ in 0..num_adrreq)', instance='LinkADRAns repeated num_adrreq times; counter +1 per request, reset after the block')
     res.coverage['arms'] = {k: {'acks': [a[0] for a in v['acks']], 'effects': len(v['effects']), 'answers': len(v['adds'])} for k, v in names.items()}
+
+
+def accumulate_rule(c, res, bf, is_cmd_discr, var):
+    body = bf.body
+    acks = [(bb, t) for bb, t in bf.calls() if callee_name(t).endswith('set_channel_mask_ack')]
+    if len(acks) != 1:
+        raise CheckError('handle_downlink_macs: set_channel_mask_ack call not unique')
+    a = term_of_operand(bf, acks[0][1].args[1])
+    upd = bf.calls_to('Configuration::channel_mask_update')
+    if len(upd) != 1:
+        raise CheckError('handle_downlink_macs: channel_mask_update call not unique')
+    ubb, ut = upd[0]
+    none_edges = bf.err_edges(ut.dest.local)
+    # find the flag: a condition of the validate(..) alternative of the ack
+    flag = None
+    if a[0] == 'phi':
+        for v, cs, bb in defs_with_conditions(bf, a[1]):
+            if v[0] == 'call' and v[1].endswith('channel_mask_validate'):
+                for x in cs:
+                    if cond_true(x) and x[0][0] == 'phi' and not is_cmd_discr(x[0]):
+                        flag = x[0][1]
+    key = 'C08:handle_downlink_macs:LinkADRReq:rfu-verdict-not-accumulated'
+    if flag is None:
+        res.violation(key, 'the channel-mask acknowledgement does not depend on a block-wide "all ChMaskCntl defined" flag (a reserved value in an earlier '
+                      'LinkADRReq of the block is forgotten): ack = %s' % term_str(a), short_site(bf, acks[0][0]), 'ACCUMULATE(block verdict)')
+        return
+    dl = defs_with_conditions(bf, flag)
+    loops = bf.cfg.natural_loops()
+    # the command loop: the loop containing the channel_mask_update call
+    outer = None
+    for h, blks in loops.items():
+        if ubb in blks and (outer is None or len(blks) > len(loops[outer])):
+            outer = h
+    clears = [(v, cs, bb) for v, cs, bb in dl if v == ('const', 0)]
+    arms = [(v, cs, bb) for v, cs, bb in dl if v == ('const', 1)]
+    others = [(v, cs, bb) for v, cs, bb in dl if v not in (('const', 0), ('const', 1))]
+    okc = len(clears) >= 1 and all(bf.guarded_by_edges(bb, none_edges) for v, cs, bb in clears) and not others
+    # re-arming: outside the loop, or in a block dominated by the queuing of the answers (the reset of the request counter)
+    adds = [bb for bb, t in bf.calls() if callee_name(t).endswith('Uplink::add_mac_command') and rules.path_conditions(bf, bb) and
+            any(is_cmd_discr(x[0]) and x[1] == (var['LinkADRReq'],) for x in rules.path_conditions(bf, bb))]
+    oka = True
+    for v, cs, bb in arms:
+        inside = outer is not None and bb in loops[outer]
+        if inside:
+            # must come after the answer loop of the block: the answer site can reach it, and it cannot reach the answer site again without a new request
+            if not adds or not bf.cfg.can_reach(adds[0], bb) or not any(is_cmd_discr(x[0]) and x[1] == (var['LinkADRReq'],) for x in cs):
+                oka = False
+            # and not before the block is answered: every path from the update to the re-arming passes the answer loop
+            ans_loop = [b2 for b2, t2 in bf.calls() if callee_name(t2).endswith('Iterator::next') and
+                        any(is_cmd_discr(x[0]) and x[1] == (var['LinkADRReq'],) for x in rules.path_conditions(bf, b2)) and
+                        term_contains(term_of_operand(bf, t2.args[0]), lambda y: isinstance(y, tuple) and y[:1] == ('agg',) and y[1].endswith('Range'))]
+            if not ans_loop or bf.cfg.can_reach(ubb, bb, skip_nodes=ans_loop):
+                oka = False
+    res.require(okc and oka and arms, key, 'the block-wide verdict flag is not accumulated correctly (clears under None: %s, re-armed only outside the block: %s, other definitions: %s)'
+                % (okc, oka, [term_str(v) for v, _, _ in others]), short_site(bf, ubb), 'ACCUMULATE(block verdict)',
+                instance='LinkADRReq block: reserved ChMaskCntl in any request clears the verdict until the block is answered')
 
 
 def rv_term(bf, rv):
